@@ -51,13 +51,6 @@ Theorem C04_hash_each_pair_once : forall k seqs, NoDup (map fst (nn_hash k seqs)
 Proof. intros. apply lookupdb_nodup_pairs. exact (fun _ _ => True). Qed.
 Print Assumptions C04_hash_each_pair_once.
 
-(* the binary64 radius regenerated from nn.py (np.sqrt(2) * max_edits today) admits every squared histogram distance the
-   pre-filter theorem allows, for both ways SciPy may compare (squared / square-rooted); decided for every k in 1..4096 *)
-From PV Require Import gen.Gen_c04 proofs.RadiusP.
-Theorem C04_radius : forall k, 1 <= k <= 4096 -> radius_ok k = true.
-Proof. exact radius_covers. Qed.
-Print Assumptions C04_radius.
-
 Example C04_ex : let s := [[67;65;65;65]; [67;65;65]; [67;65;65;65]; []]%N in
   nn_kdtree 1 1 s = [(0,2,0);(0,1,1);(1,0,1);(1,2,1);(2,0,0);(2,1,1)] /\ length (nn_hash 1 s) = 6.
 Proof. split; vm_compute; reflexivity. Qed.
